@@ -41,6 +41,18 @@ mutual
         leafIsPtr = (isPtr p.conv.env leaf).isSome →
         HasTyU p cv (PlanCheck.fieldArgTy guarded leafIsPtr leaf) tty → HasFieldsU p rest s tfs →
         HasFieldsU p (.cons (.mapped tf.name path derefs guarded leafIsPtr cv z) rest) s ((tf, tty) :: tfs)
+    /-- fed by a source method (no error result): the receiver path type-checks, the receiver's named type has the method,
+        and the conversion of the (uninterpreted) result is an identity conversion, possibly below one pointer step -/
+    | viaMethod {s tf tty path ds g t0 n args w resIsPtr rty cv rest tfs z} :
+        PlanCheck.walkTy p.conv.env s path = some (t0, ds, g) →
+        PlanCheck.fieldTyOf p.conv.env (PlanCheck.derefTy p.conv.env t0).1 n = none →
+        PlanCheck.methodResTy p.conv.env (PlanCheck.derefTy p.conv.env t0).1 n = some rty →
+        resIsPtr = (isPtr p.conv.env rty).isSome →
+        args.all PlanCheck.isCtxArg = true → PlanCheck.opaqueShape cv = true →
+        HasTyU p cv (PlanCheck.fieldArgTy (g || (PlanCheck.derefTy p.conv.env t0).2) resIsPtr rty) tty →
+        HasFieldsU p rest s tfs →
+        HasFieldsU p (.cons (.viaMethod tf.name path (ds ++ [(PlanCheck.derefTy p.conv.env t0).2])
+          (g || (PlanCheck.derefTy p.conv.env t0).2) (.call (.structMethod n) args false w) resIsPtr cv z) rest) s ((tf, tty) :: tfs)
 end
 
 /-- the constructor call of `default FUNC`: a custom function interpreted as a constructor, returning the target type or
